@@ -22,7 +22,29 @@ ASPECTS = ('keys', 'items', 'bykey')
 
 
 def shards(tier, seed):
-    return progshards.shards(tier, seed, PROPERTY)
+    out = progshards.shards(tier, seed, PROPERTY)
+    for rk in ('RandomState', 'default_rng'):
+        out.append({'name': f'random-items-{rk}', 'what': 'random-items', 'rng': rk,
+                    'nmax': 4 if tier == 'quick' else 5,
+                    'seeds': 3 if tier == 'quick' else 12})
+    return out
+
+
+def run_random_items(spec, res):
+    """items() of filtered / reshuffled / prefetched datasets pairs every
+    yielded example with its own key - also with several keyed iterators in
+    flight and with a new epoch started in between (machinery of C12)."""
+    from ..common import import_lazy_dataset
+    from . import c12
+    ld = import_lazy_dataset()
+    base = spec['seed'] * 1000
+    for kind in c12.KEYED_KINDS:
+        for n in range(0, spec['nmax'] + 1):
+            for order in c12.interleavings([n + 1, n + 1]):
+                for s_ in range(spec['seeds']):
+                    for extra in (False, True):
+                        c12.check_interleaved_items(ld, kind, n, 2, spec['rng'], base + s_,
+                                                    order, res, extra, check_perm=False)
 
 
 def prefix_hook_factory(prog, res):
@@ -53,6 +75,8 @@ def nontrivial(prog, status, m, o):
 
 
 def run_shard(spec, res):
+    if spec['what'] == 'random-items':
+        return run_random_items(spec, res)
     progshards.run(spec, res, PROPERTY, ASPECTS, progengine.judge_c03, nontrivial,
                    prefix_hook_factory=prefix_hook_factory)
 
@@ -67,6 +91,9 @@ def finalize(res, tier):
 def replay(case, res):
     from ..common import import_lazy_dataset
     ld = import_lazy_dataset()
+    if case.get('keyed'):
+        from . import c12
+        return c12.replay(case, res)
     prog = fix_prog(case['prog'])
     status, m, o = progengine.run_case(ld, prog, ASPECTS,
                                        prefix_hook=prefix_hook_factory(prog, res))
